@@ -172,6 +172,7 @@ def rule_rw3(prog):
     r = RuleResult('R-RW-3', 'LNot: odd negation parity, no double leading '
                    'negation, every language Not is the Not LNot tests')
     f = prog.func('language.LNot')
+    r.transparent = (f,)        # the recursive call is part of the shape
     notc = prog.cls('language.Not')
     I = Interp(prog, _LNotHooks(f), rule='R-RW-3')
     path = I.new_path()
